@@ -1500,7 +1500,32 @@ def c_grad_pairing(tu, fname):
                 stmt(c)
 
     stmt(body)
-    res = {"calls": [], "missing": [], "n_terms": 0}
+    res = {"calls": [], "missing": [], "n_terms": 0, "skips": []}
+    # continue / break / return guarded by a condition that reads the differentiated input: the skipped
+    # iteration would also have stored gradient contributions
+    xbases = {t[0][0] for v in env.values() if v and v[0] == "fac" for t in v[1]} | {
+        c_[1][0] for c_ in calls if c_[1] is not None}
+    seen_if = set()
+    for n_ in cfacts.walk(body):
+        if n_.get("kind") != "IfStmt":
+            continue
+        off_ = n_.get("range", {}).get("begin", {}).get("offset")
+        if off_ in seen_if:
+            continue
+        seen_if.add(off_)
+        ks_ = cfacts.kids(n_)
+        if len(ks_) < 2 or not any(x_.get("kind") in ("ContinueStmt", "BreakStmt", "ReturnStmt")
+                                   for x_ in cfacts.walk(ks_[1])):
+            continue
+        reads_x = False
+        for x_ in cfacts.walk(ks_[0]):
+            if x_.get("kind") == "ArraySubscriptExpr":
+                pn_ = ptr_norm(cfacts.kids(x_)[0])
+                if pn_ is not None and pn_[0] in xbases:
+                    reads_x = True
+        if reads_x:
+            res["skips"].append((tu.line_of(n_), _ws(tu.text_of(ks_[0])),
+                                 "the iteration is skipped when `%s`, a condition on the input sample" % _ws(tu.text_of(ks_[0]))))
     covered = {}
     for g, x, c, f, text, line, ftext in calls + inline:
         if f is None or f[0] != "fac" or g is None or x is None or c is None:
